@@ -17,10 +17,11 @@ def run(tier, seed):
     T = 170 if quick else 900
     try:
         for t in range(4):
-            h = Harness(ck, 'c09_json_t%d' % t, src.replace('__T__', str(t))); hs.append(h)
+            pools = ('[0, 6, 8, 11]', '[1, 7, 10]') if quick else ('list(range(12))', 'list(range(12))')
+            h = Harness(ck, 'c09_json_t%d' % t, src.replace('__T__', str(t)).replace('__BP__', pools[0]).replace('__CP__', pools[1])); hs.append(h)
             only = ['expr_fixed_point_ok'] + (['model_ok'] if t < 3 else ['text_constant_ok', 'constant_ok'])
             batch.add(h, T, only=only, bounds={
-                'expr_fixed_point_ok': 'five formula shapes (chains, sign / percent, IF with an empty argument, array literal, text with doubled quotes) x all operator triples with first operator index = %d mod 4: exported text parses back to itself' % t,
+                'expr_fixed_point_ok': 'five formula shapes (chains, sign / percent, IF with an empty argument, array literal, text with doubled quotes) x operator triples (first operator index = %d mod 4, others %s): exported text parses back to itself' % (t, 'from 4 x 3 representatives' if quick else 'all 12 x 12'),
                 'model_ok': 'template %d x 8 x 8 constants x 8 sheet names (hyphen, blank, apostrophe, leading digit, exclamation mark, second workbook): identical values, identical second and third export' % t,
                 'text_constant_ok': 'every text of length <= 3 over {= " a 1 blank #} held as a text cell: values and exports survive two round trips',
                 'constant_ok': '16 typed constants (numbers, logicals, text, blank, errors, text looking like other types)'})
